@@ -135,7 +135,9 @@ func ruleReaderFlow(p *Prog, l *Ledger, tier string) {
 									}
 								}
 							}
-							if okArg {
+							if okArg && name == "io.ReadAtLeast" && !readAtLeastIsFull(c) {
+								problems = append(problems, "read with io.ReadAtLeast at "+p.Pos(r.Pos())+" with a minimum that is not the length of the buffer: how many bytes beyond the minimum arrive in one call depends on how the stream delivers them, so a block cut by a short read is taken for a truncated one")
+							} else if okArg {
 								sinks = append(sinks, name)
 							} else {
 								problems = append(problems, "passed to "+name+" at "+p.Pos(r.Pos())+", which is not a listed chunk-agnostic consumer")
@@ -162,4 +164,24 @@ func ruleReaderFlow(p *Prog, l *Ledger, tier string) {
 		}
 	}
 	l.Min(rule, nParams, 8)
+}
+
+// readAtLeastIsFull: io.ReadAtLeast(r, buf, min) with min == len(buf) is io.ReadFull; with a smaller minimum the count
+// returned depends on the chunking of the stream.
+func readAtLeastIsFull(c *ssa.CallCommon) bool {
+	if len(c.Args) != 3 {
+		return false
+	}
+	buf, min := c.Args[1], c.Args[2]
+	if lc, ok := min.(*ssa.Call); ok {
+		if bi, ok := lc.Call.Value.(*ssa.Builtin); ok && bi.Name() == "len" && lc.Call.Args[0] == buf {
+			return true
+		}
+	}
+	if k, ok := constInt(min); ok {
+		if n, ok := freshSliceLen(buf); ok && n == k {
+			return true
+		}
+	}
+	return false
 }
